@@ -36,6 +36,7 @@ type HistStep struct {
 	Mode string   `json:"mode"`
 	Encf []string `json:"encf"`
 	W    []string `json:"w"`
+	Conc bool     `json:"conc"`
 }
 type BlockRec struct {
 	F   string `json:"f"`
@@ -57,14 +58,16 @@ type Violation struct {
 }
 
 type Result struct {
-	Behaviours int         `json:"behaviours"`
-	Writes     int         `json:"writes"`
-	Scans      int         `json:"block_scans"`
-	PlainFound int         `json:"plain_tokens_found_as_expected"`
-	SigCases   int         `json:"signature_cases"`
-	Verifs     int         `json:"verifications"`
-	Violations []Violation `json:"violations"`
-	Errors     []string    `json:"harness_errors"`
+	Behaviours  int         `json:"behaviours"`
+	Writes      int         `json:"writes"`
+	Scans       int         `json:"block_scans"`
+	PlainFound  int         `json:"plain_tokens_found_as_expected"`
+	PeerWrites  int         `json:"peer_writes_merged"`
+	PeerRefused int         `json:"peer_writes_refused"`
+	SigCases    int         `json:"signature_cases"`
+	Verifs      int         `json:"verifications"`
+	Violations  []Violation `json:"violations"`
+	Errors      []string    `json:"harness_errors"`
 }
 
 const sdl = "type T {\n k: Int\n a: String\n b: Int\n c: Float\n}"
@@ -242,11 +245,100 @@ func (r *Runner) ReplayEnc(b *Behaviour) {
 			if b.Mode == "doc" {
 				opts = append(opts, client.CreateDocEncrypted(true))
 			} else if b.Mode == "fields" {
-				opts = append(opts, client.CreateDocWithEncryptedFields(b.Encf))
+				// the set of encrypted fields is handed over as a list: its order is a choice of the caller
+				list := append([]string{}, b.Encf...)
+				sort.Strings(list)
+				if r.Res.Behaviours%2 == 0 {
+					for i, j := 0, len(list)-1; i < j; i, j = i+1, j-1 {
+						list[i], list[j] = list[j], list[i]
+					}
+				}
+				opts = append(opts, client.CreateDocWithEncryptedFields(list))
 			}
 			if err := col.Create(ctx, doc, opts...); err != nil {
 				r.Res.Errors = append(r.Res.Errors, "create: "+err.Error())
 				return
+			}
+		case "peerwrite":
+			// a peer that holds no key receives the document, writes the field itself, and the owner merges that
+			// write; with conc the owner updates the field on its own head first, so the field gets two heads
+			f := fields[0]
+			colsP, _ := n.DB.GetCollections(ctx, client.CollectionFetchOptions{})
+			colIDP := colsP[0].Version().CollectionID
+			headOf := func(x *cluster.Node) (cid.Cid, error) {
+				h, err := x.Exec(ctx, fmt.Sprintf(`query { latestCommits(docID: %q) { cid } }`, doc.ID().String()))
+				if err != nil || len(cluster.Rows(h, "latestCommits")) == 0 {
+					return cid.Undef, fmt.Errorf("latestCommits on %s: %v (%d rows)", x.Name, err, len(cluster.Rows(h, "latestCommits")))
+				}
+				return cid.Decode(cluster.Rows(h, "latestCommits")[0]["cid"].(string))
+			}
+			pn, err := cluster.NewNode(ctx, "peer", cluster.Options{})
+			if err != nil {
+				r.Res.Errors = append(r.Res.Errors, err.Error())
+				return
+			}
+			pn.DB.AddSchema(ctx, sdl)
+			stopKms := kms(pn, n, false)
+			oh, err := headOf(n)
+			if err == nil {
+				_, err = cluster.CopyClosure(ctx, n, pn, oh)
+			}
+			if err == nil {
+				err = pn.Merge(ctx, colIDP, doc.ID().String(), oh)
+			}
+			if err != nil {
+				stopKms()
+				pn.Close()
+				r.violate("C11", "receiver-merge", b, "key-less peer failed to merge the document: %v", err)
+				return
+			}
+			pv := secretValue(f, 900000+tok) // the peer's own value: not a secret of the owner
+			lit := fmt.Sprint(pv)
+			if s, ok := pv.(string); ok {
+				lit = fmt.Sprintf("%q", s)
+			}
+			ures, err := pn.Exec(ctx, fmt.Sprintf(`mutation { update_T(docID: %q, input: {%s: %s}) { _docID } }`, doc.ID().String(), f, lit))
+			if err != nil || len(cluster.Rows(ures, "update_T")) == 0 {
+				// the peer cannot write the document: nothing to merge, the step is void
+				stopKms()
+				pn.Close()
+				r.Res.PeerRefused++
+				break
+			}
+			ph, err := headOf(pn)
+			if err != nil {
+				r.Res.Errors = append(r.Res.Errors, "after the peer write: "+err.Error())
+				return
+			}
+			if st.Conc {
+				tok++
+				v := secretValue(f, tok)
+				if err := doc.Set(f, v); err != nil {
+					r.Res.Errors = append(r.Res.Errors, err.Error())
+					return
+				}
+				current[f] = v
+				all = append(all, written{f, tok})
+				if err := col.Update(ctx, doc); err != nil {
+					r.Res.Errors = append(r.Res.Errors, "update: "+err.Error())
+					return
+				}
+			} else {
+				delete(current, f) // the field now holds the peer's value
+			}
+			if _, err := cluster.CopyClosure(ctx, pn, n, ph); err != nil {
+				r.Res.Errors = append(r.Res.Errors, err.Error())
+				return
+			}
+			if err := n.Merge(ctx, colIDP, doc.ID().String(), ph); err != nil {
+				r.violate("C11", "owner-merge", b, "the owner failed to merge the write of a key-less peer: %v", err)
+				return
+			}
+			stopKms()
+			pn.Close()
+			r.Res.PeerWrites++
+			if st.Conc {
+				delete(current, f) // two heads: which value is current is not this property's business
 			}
 		case "update":
 			for _, f := range fields {
@@ -289,7 +381,27 @@ func (r *Runner) ReplayEnc(b *Behaviour) {
 					if inEvents && !inStore {
 						where = "an update notification"
 					}
-					r.violate("C11", "plaintext:"+st.Op, b, "value #%d of encrypted field %s (mode %s %v, written by step %v) is in clear in %s", w.tok, w.f, b.Mode, b.Encf, st, where)
+					atCreate, peerBefore := false, false
+					for _, h := range b.Hist {
+						if h.Op == "create" {
+							for _, x := range h.W {
+								atCreate = atCreate || x == w.f
+							}
+						}
+						if h.Op == "peerwrite" && len(h.W) == 1 && h.W[0] == w.f {
+							peerBefore = true
+						}
+					}
+					history := "field given a value at creation"
+					if !atCreate {
+						history = "field first written by an update"
+					}
+					if peerBefore {
+						history += ", a key-less peer wrote the field in this behaviour"
+					} else {
+						history += ", no peer write"
+					}
+					r.violate("C11", "plaintext:"+st.Op, b, "value #%d of encrypted field %s (mode %s %v, written by step %v; %s) is in clear in %s", w.tok, w.f, b.Mode, b.Encf, st, history, where)
 					return
 				}
 			} else {
@@ -317,11 +429,15 @@ func (r *Runner) ReplayEnc(b *Behaviour) {
 	r.readBack(n, doc.ID().String(), current, b, "the owner")
 	// receivers: one that obtains the keys, one that does not
 	head, err := n.Exec(ctx, fmt.Sprintf(`query { latestCommits(docID: %q) { cid } }`, doc.ID().String()))
-	if err != nil || len(cluster.Rows(head, "latestCommits")) != 1 {
-		r.Res.Errors = append(r.Res.Errors, fmt.Sprint("latestCommits: ", err))
+	if err != nil || len(cluster.Rows(head, "latestCommits")) == 0 {
+		r.Res.Errors = append(r.Res.Errors, fmt.Sprintf("latestCommits at the end: %v, hist %+v", err, b.Hist))
 		return
 	}
-	hc, _ := cid.Decode(cluster.Rows(head, "latestCommits")[0]["cid"].(string))
+	var hcs []cid.Cid
+	for _, row := range cluster.Rows(head, "latestCommits") {
+		c, _ := cid.Decode(row["cid"].(string))
+		hcs = append(hcs, c)
+	}
 	cols, _ := n.DB.GetCollections(ctx, client.CollectionFetchOptions{})
 	colID := cols[0].Version().CollectionID
 	for _, withKeys := range []bool{true, false} {
@@ -332,11 +448,21 @@ func (r *Runner) ReplayEnc(b *Behaviour) {
 		}
 		rc.DB.AddSchema(ctx, sdl)
 		stop := kms(rc, n, withKeys)
-		if _, err := cluster.CopyClosure(ctx, n, rc, hc); err != nil {
-			r.Res.Errors = append(r.Res.Errors, err.Error())
+		for _, hc := range hcs {
+			if _, err := cluster.CopyClosure(ctx, n, rc, hc); err != nil {
+				r.Res.Errors = append(r.Res.Errors, err.Error())
+			}
 		}
 		errc := make(chan error, 1)
-		go func() { errc <- rc.Merge(ctx, colID, doc.ID().String(), hc) }()
+		go func() {
+			var err error
+			for _, hc := range hcs {
+				if e := rc.Merge(ctx, colID, doc.ID().String(), hc); e != nil {
+					err = e
+				}
+			}
+			errc <- err
+		}()
 		select {
 		case err := <-errc:
 			if err != nil {
